@@ -190,10 +190,10 @@ def evProp (c : Case) (evs : Array IEv) (unitLevel : Bool := false) : Option Str
       match ratAt dbl w s.v1 0 with
       | some (x, y) => if x == 0 ∧ y == 0 then return some s!"{where_}: returns 0 but the pivot it leaves is exactly zero"
       | none => pure ()
-    -- unit level: `usepr` with a remembered row that is not an eligible candidate of the column is outside the
-    -- documented precondition of SamePattern_SameRowPerm (the routine then tests the FIRST candidate but
-    -- records the remembered row); only the bit mirror is evaluated on such inputs
-    let reuseOk := !unitLevel || !e.useprIn || eligRows.contains e.oldrowRaw
+    -- a remembered row that is not an eligible candidate of the column (dropped from L by the new values) is
+    -- abandoned by the routine since "fix: ilu_[sdcz]pivotL: a remembered pivot row that is absent ..." -- the
+    -- clauses below hold with or without it (theorem ilu_pivot_row_recorded)
+    let reuseOk := true
     -- `drop_sum >= 0` (and real) in the variants where it is a sum of magnitudes: hypothesis `hds` of the theorems
     let dsOk := !e.milu.absVariant || (match ratAt dbl w s.ds 0 with | some (x, y) => x ≥ 0 ∧ y == 0 | none => false)
     if anyElig ∧ reuseOk ∧ dsOk then
